@@ -47,7 +47,7 @@ ASSUMPTIONS = ["flows are built through public constructors/attributes (flowgen.
 LEVEL_TEXT = ("exploration: randomised search over flow states of all five kinds and over mutated file contents; "
               "no exhaustiveness claim")
 LEVEL_NOTE = "trusts flowgen.build/observe (harness) and Python's float repr round trip"
-QUICK_N, THOROUGH_N = 16_000, 1_200_000
+QUICK_N, THOROUGH_N = 10_000, 1_200_000
 
 _IGNORE = ("live",)
 
